@@ -16,27 +16,4 @@ theorem printFix_eq (v : Int) :
     rw [Int.natAbs_tmod]; rfl
   simp only [printFix, e1, e2, showInt_nat, List.append_assoc, List.singleton_append]
 
-theorem parse_unsigned_text (w : Nat) (hw : w < 2147483648) (neg : Bool) (s : List Char)
-    (hs : s = Nat.toDigits 10 (w / 1048576) ++
-      '.' :: ((fracDigits FRAC_FUEL (10 * ((w % 1048576 : Nat) : Int) + 5) 10).map showInt).flatten) :
-    (let (ip, s3) := readInt s 0
-     let fp : Int := match s3 with
-       | '.' :: s4 => fracValue (readFracDigits 7 s4).1
-       | _ => 0
-     if ip ≥ 2048 ∨ (fp ≥ 1048576 ∧ ip = 2047) then
-       (⟨if ip = 2047 then 1048576 else 0, .tooBig⟩ : Parsed)
-     else
-       let m := ip * 1048576 + fp
-       ⟨if neg then -m else m, .none⟩) = ⟨if neg then -(w : Int) else (w : Int), .none⟩ := by
-  obtain ⟨c, t, _, _, h3, h4⟩ := read_unsigned (w / 1048576) (by omega)
-    ((w % 1048576 : Nat) : Int) (by omega) (by omega)
-  subst hs
-  rw [h3]
-  simp only [h4]
-  have h5 : ¬ (((w / 1048576 : Nat) : Int) ≥ 2048 ∨
-      (((w % 1048576 : Nat) : Int) ≥ 1048576 ∧ ((w / 1048576 : Nat) : Int) = 2047)) := by omega
-  simp only [h5, if_false]
-  have h6 : ((w / 1048576 : Nat) : Int) * 1048576 + ((w % 1048576 : Nat) : Int) = (w : Int) := by omega
-  rw [h6]
-
 end C17
